@@ -230,6 +230,14 @@ VERUS_UNITS = {
             ('&& same_but::<IdMappedSystems<I, O>>(*old(world), *final(world)) && named::<I, O>(*final(world)) =~= m0))', '&& same_but::<IdMappedSystems<I, O>>(*old(world), *final(world)) && named::<I, O>(*final(world)) =~= m0.insert(sys_name, None)))', 'named_syscall_direct'),
         ],
     },
+    'entity_reactors': {
+        'template': 'entity_reactors.rs.tpl',
+        'owners': [(r'EntityReactors::(insert|remove|remove_pred)$', ['C06', 'C01', 'C16']), (r'ReactorHandle::sys_command$', ['C01'])],
+        'negctl': [
+            ('pub open spec fn hit(x: (EntityReactionType, ReactorHandle), rtype: EntityReactionType, id: SystemCommand) -> bool { x.0 == rtype && x.1.sys() == id }', 'pub open spec fn hit(x: (EntityReactionType, ReactorHandle), rtype: EntityReactionType, id: SystemCommand) -> bool { x.0 == rtype || x.1.sys() == id }', 'EntityReactors::remove_pred'),
+            ('ensures final(self).reactors@ == old(self).reactors@.push((rtype, handle)),', 'ensures final(self).reactors@ == seq![(rtype, handle)] + old(self).reactors@,', 'EntityReactors::insert'),
+        ],
+    },
     'dispatch': {
         'template': 'dispatch.rs.tpl',
         'owners': [(r'schedule_entity_reaction_impl$', ['C01', 'C14']), (r'ReactCache::schedule_(insertion|mutation)_reaction$', ['C01', 'C14'])],
@@ -311,7 +319,7 @@ PROPS = {
         note=ENVNOTE,
         explanation='counter, cleanup, broadcast and entity-event scheduling proved by Verus (unbounded; entity-event restated by Kani, bounded); runner abort/postpone/replay-step clauses proved (Verus); whole-tree release not covered'),
     'C06': dict(category='other', design_ref='DESIGN.md 5/C06',
-        text='Verus proves on the verbatim revoke_reactor / revoke_entity_reactor, for tokens of ANY length, that every element of the token is processed, in order, by exactly the revocation its kind names (right table, right key, right reaction type, the token\'s id), entity-scoped elements being skipped - not aborting the walk - when the entity is gone. The per-table revocations assumed there are themselves proved for lists of ANY length: all five ReactCache::revoke_* remove exactly the first entry of the id from the named list, keep every other entry, leave sibling lists / other keys / other tables untouched, are a no-op for an absent id or key, and drop the map entry exactly when its lists are empty (Verus, verbatim modulo two stated normalizations: Vec as an assumed sequence stand-in whose iter().enumerate() Verus\' for-loops understand, and `if C { continue; } REST` read as `if C {} else { REST }`); the same contract is discharged on the compiled code with std\'s Vec by Kani for lists of length 0..4 (multiset comparison); EntityReactors::remove deletes exactly the (type, id) matches (Kani, L<=4). Lemma L3 (Verus): over any history on one key, the number of live entries of an id is registrations minus effective revocations, other ids unaffected.',
+        text='Verus proves on the verbatim revoke_reactor / revoke_entity_reactor, for tokens of ANY length, that every element of the token is processed, in order, by exactly the revocation its kind names (right table, right key, right reaction type, the token\'s id), entity-scoped elements being skipped - not aborting the walk - when the entity is gone. The per-table revocations assumed there are themselves proved for lists of ANY length: all five ReactCache::revoke_* remove exactly the first entry of the id from the named list, keep every other entry, leave sibling lists / other keys / other tables untouched, are a no-op for an absent id or key, and drop the map entry exactly when its lists are empty (Verus, verbatim modulo two stated normalizations: Vec as an assumed sequence stand-in whose iter().enumerate() Verus\' for-loops understand, and `if C { continue; } REST` read as `if C {} else { REST }`); the same contract is discharged on the compiled code with std\'s Vec by Kani for lists of length 0..4 (multiset comparison); EntityReactors::remove deletes exactly the entries that match BOTH the reaction type and the reactor id and keeps every other entry in order, for lists of ANY length (Verus, closure lifted by extraction rule 22; restated by Kani on the SmallVec-based compiled code, L<=4). Lemma L3 (Verus): over any history on one key, the number of live entries of an id is registrations minus effective revocations, other ids unaffected.',
         note=ENVNOTE + '; the assumed effects of the callees in unit `revoke` are uninterpreted functions - their meaning is fixed by the Kani contracts, the correspondence is by review',
         explanation='token walk and the five type-wide revoke_* proved unbounded (Verus); per-entity removal and a compiled-code restatement bounded (Kani); history lemma L3'),
     'C07': dict(category='other', design_ref='DESIGN.md 5/C07 + 9.5',
